@@ -89,18 +89,18 @@ def tlc_cached(ctx, module, cfg, timeout=3000, tag=None, workers=None, min_expor
     return r
 
 
-def replay_cached(ctx, binary, args, export_path, timeout=3000):
+def replay_cached(ctx, binary, args, export_path, timeout=3000, verb="replay"):
     """Runs `binary replay <export> <workers> args...` (VH protocol) with a result cache keyed by the
     binary and the export; returns the parsed result of ctx.harness with only this property's violations
     registered."""
     os.makedirs(CACHE, exist_ok=True)
-    key = _sha([binary, export_path], " ".join(args) + "|seed=%d" % ctx.seed)
+    key = _sha([binary, export_path], verb + " " + " ".join(args) + "|seed=%d" % ctx.seed)
     path = os.path.join(CACHE, "replay_%s_%s.vh" % (os.path.basename(binary), key))
     if os.path.exists(path) and os.environ.get("VERIF_NOCACHE") != "1":
         h = ctx.harness(["cat", path], timeout=600, keep=mine(ctx))
         h["cached"] = True
         return h
-    h = ctx.harness([binary, "replay", export_path, str(NCPU)] + list(args), timeout=timeout, keep=mine(ctx))
+    h = ctx.harness([binary, verb, export_path, str(NCPU)] + list(args), timeout=timeout, keep=mine(ctx))
     if h["summary"].get("unreproducible_worker_deaths", 0):
         raise Infra("a worker died on a case that did not reproduce the death")
     tmp = path + ".tmp%d" % os.getpid()
@@ -171,12 +171,18 @@ LEDGER_CFGS = {
 }
 
 
-def run_ledger(ctx, timeout=6000):
+PROPOSE_CFGS = {
+    "quick": [("cfg/LedgerGen.pool.quick.cfg", 3), ("cfg/LedgerGen.quick.cfg", 24)],
+    "thorough": [("cfg/LedgerGen.pool.quick.cfg", 1), ("cfg/LedgerGen.quick.cfg", 2), ("cfg/LedgerGen.thorough.cfg", 16)],
+}
+
+
+def run_ledger(ctx, timeout=6000, mode="replay"):
     b = ctx.build("ledger")
     out = dict(tlc=[], cases=0, calls=0, distinct=0, samples=[], other=0, states=0, transitions=0, configs=[])
-    for cfg, stride in LEDGER_CFGS[ctx.tier]:
+    for cfg, stride in (LEDGER_CFGS if mode == "replay" else PROPOSE_CFGS)[ctx.tier]:
         r = tlc_cached(ctx, "chain/LedgerGen", cfg, timeout=timeout, tag="ledger", workers=NCPU)
-        h = replay_cached(ctx, b, [str(stride)], r.path, timeout=timeout)
+        h = replay_cached(ctx, b, [str(stride)], r.path, timeout=timeout, verb=mode)
         s = h["summary"]
         want = (r.nexports + stride - 1) // stride
         if abs(s.get("cases", 0) - want) > 1 and not h["violations"]:
